@@ -10,6 +10,7 @@ events
   `B <tag>`                            start tag whose id / spectrumRef attribute holds a malformed entity
   `E <tag>`                            end tag
   `Z <tag>`                            empty element other than cvParam
+  `L <text hex>`                       text of the array-length attributes of the next start tag (never read)
   `C <cv 0..20> <val> <unit>`          cvParam; val ∈ `a` | `g` | `f <f32 bits>` | `n <nat>`; unit ∈ s m o a
   `T e` | `T b` | `T d <wire hex> <inflated: 0 | 1 hex>`
 spectrum
@@ -116,6 +117,7 @@ def pEvent : P (Event B32) := do
   | "B" => do let g ← pTag; pure (.startBad g)
   | "E" => do let g ← pTag; pure (.stop g)
   | "Z" => do let g ← pTag; pure (.empty g)
+  | "L" => do let t ← str; pure (.lengthAttr t)
   | "C" => do let c ← pCv; let v ← pVal; let u ← pUnit; pure (.cv c v u)
   | "T" => do let p ← pPayload; pure (.text p)
   | _ => failure
